@@ -19,7 +19,7 @@ func VpH_C11_robust() {
 	vp.Assume(n <= L)
 	var b Board
 	err := ParseFEN(&b, buf[:n])
-	if err == nil {
+	if err == nil && vp.Param("panics_only") == 0 {
 		vp.Assert(b.fullMoves >= 1 && b.FiftyCnt >= 0 && b.FiftyCnt <= 100, "accepted-counters-in-range")
 		vp.Assert(b.STM == White || b.STM == Black, "accepted-side-to-move")
 	}
